@@ -1,6 +1,7 @@
 import MaestroVerif.Lemmas.ExpandAll
 import MaestroVerif.Lemmas.ExpandDeps
 import MaestroVerif.Lemmas.ExpandNames
+import MaestroVerif.Lemmas.ExpandGate
 
 /-!
 # The dependency sets of the finished graph (C08)
@@ -297,6 +298,25 @@ structure StagedOK (spec : Spec) (flow : Flow) (s : SS) : Prop where
     DepsOK spec s st ∧
     (∀ p, (p ∈ depsOf st ∨ p ∈ hubOf st) → p ≠ nm → s.used.any (·.1 == p) = true) ∧
     (∀ p, p ∈ depsOf st → ∀ k, k ∈ getAssoc s.used p → k ∈ getAssoc s.used nm)
+  adjFrom : ∀ k x, x ∈ getAssoc s.g.adj k → k ≠ x →
+    ∃ nm q st, flow.steps.find? (·.1 == nm) = some (q, st) ∧ s.used.any (·.1 == nm) = true ∧
+      AdjWitness spec s st k x
+
+theorem adjWitness_transfer (spec : Spec) (s s1 : SS) (st : Step) (k x : Str)
+    (hu : getAssoc s1.used st.name = getAssoc s.used st.name)
+    (hU : ∀ p, p ∈ depsOf st → getAssoc s1.used p = getAssoc s.used p)
+    (hC : ∀ hb, hb ∈ hubOf st → getAssoc s1.combos hb = getAssoc s.combos hb)
+    (h : AdjWitness spec s st k x) : AdjWitness spec s1 st k x := by
+  unfold AdjWitness at h ⊢
+  rw [hu]
+  split
+  · rename_i he
+    simp only [he, ↓reduceIte] at h
+    exact ⟨h.1, (owed_congr spec st 0 hU hC k).mpr h.2⟩
+  · rename_i he
+    simp only [he] at h
+    obtain ⟨row, h1, h2, h3⟩ := h
+    exact ⟨row, h1, h2, (owed_congr spec st row hU hC k).mpr h3⟩
 
 /-- the used-parameter set a step is filed with is the one `usedOf` computes from the table it finds -/
 theorem stageStep_usedOf (spec : Spec) (ord : List Str → List Str) (s s' : SS) (st : Step)
@@ -341,8 +361,27 @@ theorem stagedOK_step (spec : Spec) (hc : NoClash spec) (hx : CrossInj spec)
   obtain ⟨hst, hname⟩ := find_filed hfs hfind
   have hukeys := stageStep_used_keys spec ord s s1 st h
   have hckeys := stageStep_combos_keys spec ord s s1 st h
-  obtain ⟨d1, d2, d3⟩ := stageStep_deps spec hc ho s s1 st hst hJ.keys (hselfAll st hst) h
-  refine ⟨by rw [hukeys, hJ.src]; rfl, ?_, ?_⟩
+  obtain ⟨d1, d2, d3, d4⟩ := stageStep_deps spec hc ho s s1 st hst hJ.keys (hselfAll st hst) h
+  refine ⟨by rw [hukeys, hJ.src]; rfl, ?_, ?_, ?_⟩
+  rotate_left 2
+  · intro k x hx hkx
+    rcases d4 k x hx with h1 | ⟨_, h2⟩
+    · obtain ⟨nm', q', st', hfind', hstaged', hw⟩ := hJ.adjFrom k x h1 hkx
+      obtain ⟨hst', hname'⟩ := find_filed hfs hfind'
+      have e : nm' ≠ nm := by
+        intro e; rw [e, hfresh] at hstaged'; cases hstaged'
+      have hne_names : st'.name ≠ st.name := by rw [hname', hname]; exact e
+      obtain ⟨_, o2, _⟩ := hJ.ok nm' q' st' hfind' hstaged'
+      have hpne : ∀ p, (p ∈ depsOf st' ∨ p ∈ hubOf st') → p ≠ st.name := by
+        intro p hp e2
+        by_cases e3 : p = nm'
+        · rw [e3, ← hname'] at e2; exact hne_names e2
+        · have := o2 p hp e3
+          rw [e2, hname, hfresh] at this; cases this
+      refine ⟨nm', q', st', hfind', by rw [hukeys, hstaged']; rfl, ?_⟩
+      exact adjWitness_transfer spec s s1 st' k x (d3 _ hne_names).1
+        (fun p hp => (d3 p (hpne p (Or.inl hp))).1) (fun hb hhb => (d3 hb (hpne hb (Or.inr hhb))).2) hw
+    · exact ⟨nm, q, st, hfind, by rw [hukeys, hname]; simp, h2⟩
   · intro k hk
     rw [hckeys] at hk
     rcases Bool.or_eq_true _ _ |>.mp hk with e | e
@@ -567,8 +606,9 @@ theorem stageSS_deps_exact (spec : Spec) (hc : NoClash spec) (hx : CrossInj spec
     (hsrc : ∀ st, st ∈ spec.steps → st.name ≠ SOURCE)
     (hnames : (spec.steps.map (·.name)).Nodup)
     {ord : List Str → List Str} (ho : IsPermOracle ord) (sf : SS) (h : stageSS spec ord = .ok sf) :
-    ∀ st, st ∈ spec.steps → DepsOK spec sf st ∧
-      ∀ p, p ∈ depsOf st → ∀ k, k ∈ getAssoc sf.used p → k ∈ getAssoc sf.used st.name := by
+    (∀ st, st ∈ spec.steps → DepsOK spec sf st ∧
+      ∀ p, p ∈ depsOf st → ∀ k, k ∈ getAssoc sf.used p → k ∈ getAssoc sf.used st.name) ∧
+    (∀ k x, x ∈ getAssoc sf.g.adj k → k ≠ x → ∃ st, st ∈ spec.steps ∧ AdjWitness spec sf st k x) := by
   have hall := stageSS_all_staged spec ord sf h hsrc
   unfold stageSS at h
   split at h
@@ -582,7 +622,18 @@ theorem stageSS_deps_exact (spec : Spec) (hc : NoClash spec) (hx : CrossInj spec
     · rename_i order hts
       obtain ⟨hnd, hperm, htopo⟩ := topoSort_spec flow.dag hok.wf hok.acyclic hts
       have hinit : StagedOK spec flow (initSS spec.root) := by
-        refine ⟨by simp [initSS], ?_, ?_⟩
+        refine ⟨by simp [initSS], ?_, ?_, ?_⟩
+        rotate_left 2
+        · intro k x hx
+          exfalso
+          simp only [initSS, getAssoc] at hx
+          split at hx
+          · rename_i e he
+            have := List.mem_of_find?_eq_some he
+            simp only [List.mem_singleton] at this
+            subst this
+            simp at hx
+          · simp at hx
         · intro k hk
           simp only [initSS, List.any_cons, List.any_nil, Bool.or_false, beq_iff_eq] at hk
           simp [hk]
@@ -604,6 +655,9 @@ theorem stageSS_deps_exact (spec : Spec) (hc : NoClash spec) (hx : CrossInj spec
           obtain ⟨hl, _⟩ := List.getElem?_eq_some_iff.mp hnm
           exact List.mem_range.mpr hl)
         hinit h
+      refine ⟨?_, fun k x hx hkx => by
+        obtain ⟨nm, q, st, hf, _, hw⟩ := hJ.adjFrom k x hx hkx
+        exact ⟨st, (find_filed hfs hf).1, hw⟩⟩
       intro st hst
       have hm := hmemnames st hst
       have hfiled : ∃ q st', flow.steps.find? (·.1 == st.name) = some (q, st') := by
@@ -754,5 +808,34 @@ theorem depsExact_of_ok (spec : Spec) (hdot : NameInj spec) (s : SS) (st : Step)
     obtain ⟨row', m1, m2, m3⟩ := h row hrow
     rw [m3 x]
     exact owed_same_name s.used s.combos spec hdot st _ (by simpa using he) hsub row row' hrow m1 m2 x
+
+/-- **both tables of the finished graph hold the same edges**: `c` is a child of `p` in the
+adjacency table exactly when `p` is in the dependency set of `c` -/
+theorem stageSS_par (spec : Spec) (hc : NoClash spec) (hx : CrossInj spec) (hinj : NameInj spec)
+    (hselfAll : ∀ st, st ∈ spec.steps → st.name ∉ hubOf st)
+    (hsrc : ∀ st, st ∈ spec.steps → st.name ≠ SOURCE)
+    (hnames : (spec.steps.map (·.name)).Nodup)
+    {ord : List Str → List Str} (ho : IsPermOracle ord) (sf : SS) (h : stageSS spec ord = .ok sf) :
+    ∀ p c, p ≠ c → (c ∈ getAssoc sf.g.adj p ↔ p ∈ getAssoc sf.g.deps c) := by
+  obtain ⟨hdeps, hadj⟩ := stageSS_deps_exact spec hc hx hselfAll hsrc hnames ho sf h
+  have hstage : stage spec ord = .ok sf.g := by rw [stage_eq_stageSS, h]
+  intro p c hpc
+  constructor
+  · intro hmem
+    obtain ⟨st, hst, hw⟩ := hadj p c hmem hpc
+    obtain ⟨h1, h2⟩ := hdeps st hst
+    have hex := depsExact_of_ok spec hinj sf st h1 h2
+    unfold AdjWitness at hw
+    unfold DepsExact at hex
+    split at hw
+    · rename_i he
+      simp only [he, ↓reduceIte] at hex
+      rw [hw.1]; exact (hex p).mpr hw.2
+    · rename_i he
+      simp only [he] at hex
+      obtain ⟨row, hr, e1, e2⟩ := hw
+      rw [e1]; exact (hex row hr p).mpr e2
+  · intro hmem
+    exact stage_depsInAdj spec ord sf.g hstage p c hpc hmem
 
 end MaestroVerif.Expand
